@@ -283,23 +283,55 @@ Definition park_model (v : variant) (c : cfg) (cancel : bool) (ncloses extra : Z
   end.
 
 (* the run loop settled after Run started *)
-Definition start (v : variant) (c : cfg) : list state :=
-  match step v c (init c) LoopTop with Some s => [s] | None => [] end.
+(* ------------------------------------------------------------------------------------- *)
+(* the model driven like a settled script: one operation at a time, the run loop's iteration *)
+(* spelled out (no search).  Proofs_seq.v proves that, for EVERY script, this run produces    *)
+(* exactly the observations of the specification's reference [ref_run_g].                     *)
 
-Definition model_agrees (v : variant) (k : case) : bool :=
-  match k with
-  | CScript c slow steps f rr cr leak =>
-      cfg_okb c && float_exactb c &&
-      existsb (fun s => model_ends v c s f) (sim v c slow (start v c) steps) &&
-      rr && cr && negb leak
-  | CStress runs _ _ _ _ => 0 <? runs
-  | CPark c cancel n extra held allc rr leak =>
-      cfg_okb c && (1 <=? n) && (n <=? 2) && (0 <=? extra) &&
-      park_model v c cancel n extra && (held =? 0) && allc && rr && negb leak
+Definition wobs_of_log (l : list oev) : list wobs :=
+  flat_map (fun o => match o with
+                     | ONew d | OExt d => [WStart d]
+                     | OExp => [WEnd]
+                     | OSig _ => []
+                     end) l.
+
+Definition seq_obs (slow : bool) (s s1 : state) : gobs :=
+  let l := new_log s s1 in ((if slow then 0 else count_sigs l), wobs_of_log l).
+
+Definition seq_model_step (v : variant) (c : cfg) (slow : bool) (s : state) (op : sop)
+  : option (state * gobs) :=
+  match op with
+  | PAdd =>
+      match exec v c s [Model.Add; TakeToken; HandleToken; LoopTop] with
+      | Some s1 => Some ((if slow then s1 else drain v c s1), seq_obs slow s s1)
+      | None => None
+      end
+  | PAdv d =>
+      match step v c s (Advance d) with
+      | Some s0 =>
+          match (if timer_due s0 then exec v c s0 [TakeTimer; TimerFire; LoopTop] else Some s0) with
+          | Some s1 => Some ((if slow then s1 else drain v c s1), seq_obs slow s s1)
+          | None => None
+          end
+      | None => None
+      end
+  | PDrain => Some (drain v c s, (inflight s, []))
   end.
 
-(* ------------------------------------------------------------------------------------- *)
-(* the spec's side: oracles on the observation alone                                        *)
+Fixpoint seq_model_run (v : variant) (c : cfg) (slow : bool) (s : state) (ops : list sop)
+  : option (list gobs) :=
+  match ops with
+  | [] => Some []
+  | op :: ops' =>
+      match seq_model_step v c slow s op with
+      | Some (s', o) =>
+          match seq_model_run v c slow s' ops' with
+          | Some l => Some (o :: l)
+          | None => None
+          end
+      | None => None
+      end
+  end.
 
 Definition is_seq_step (k : sstep) : bool :=
   match k with KAdd | KAdv _ | KDrain => true | _ => false end.
@@ -338,6 +370,36 @@ Fixpoint gobs_of (steps : list (sstep * (list act * Z))) : option (list gobs) :=
       | _, _ => None
       end
   end.
+
+(* the run loop parked in its select after Run started *)
+Definition start1 (c : cfg) : state := set_run (init c) R_select.
+
+Definition start (v : variant) (c : cfg) : list state :=
+  match step v c (init c) LoopTop with Some s => [s] | None => [] end.
+
+Definition model_agrees (v : variant) (k : case) : bool :=
+  match k with
+  | CScript c slow steps f rr cr leak =>
+      cfg_okb c && float_exactb c &&
+      existsb (fun s => model_ends v c s f) (sim v c slow (start v c) steps) &&
+      (* a sequential script must also be what the spelled-out sequential run of the model
+         produces (the function Proofs_seq.v proves equal to the specification's reference) *)
+      (let ks := map fst steps in
+       if forallb is_seq_step ks then
+         match gobs_of steps, seq_model_run v c slow (start1 c) (flat_map sops_of ks) with
+         | Some o, Some m => gobss_eqb o m
+         | _, _ => false
+         end
+       else true) &&
+      rr && cr && negb leak
+  | CStress runs _ _ _ _ => 0 <? runs
+  | CPark c cancel n extra held allc rr leak =>
+      cfg_okb c && (1 <=? n) && (n <=? 2) && (0 <=? extra) &&
+      park_model v c cancel n extra && (held =? 0) && allc && rr && negb leak
+  end.
+
+(* ------------------------------------------------------------------------------------- *)
+(* the spec's side: oracles on the observation alone                                        *)
 
 Definition adds_of (k : sstep) : Z :=
   match k with
